@@ -74,13 +74,15 @@ def mutants(pid):
 
 def run_one(job):
     pid, f, ln, old, new = job
+    os.makedirs('/tmp/wt/mut', exist_ok=True)
     tmp = tempfile.mkdtemp(prefix='mut.', dir='/tmp/wt/mut')
     try:
         for d in ('include', 'src', 'CMakeLists.txt'):
             s = os.path.join('/repo', d)
             (shutil.copytree if os.path.isdir(s) else shutil.copy)(s, os.path.join(tmp, d))
-        os.symlink('/repo/test', os.path.join(tmp, 'test'))
         p = os.path.join(tmp, f)
+        if not f.startswith(('include/', 'src/')) or not os.path.realpath(p).startswith(os.path.realpath(tmp) + os.sep):
+            return (pid, f, ln, old, new.strip()[:90], -1, 'skipped: not a library source')       # never write through to /repo (test files are not copied)
         lines = open(p).read().split('\n')
         lines[ln - 1] = new
         open(p, 'w').write('\n'.join(lines))
